@@ -580,6 +580,7 @@ pub fn generate(prop: &str, family: &str, seed: u64) -> RunDesc {
         "list" => crate::fam_list::gen(prop, seed),
         "chain" => crate::fam_chain::gen(prop, seed, false),
         "chain-stack" => crate::fam_chain::gen(prop, seed, true),
+        "chain-weak" => crate::fam_chain::gen_weak(prop, seed),
         "agesweep" => crate::fam_sweep::gen(prop, seed),
         _ => gen_interp_run(prop, family, seed, Profile::Mixed),
     };
